@@ -114,7 +114,7 @@ func (s *verifC06MainStub) results() ([]string, bool) {
 			res = append(res, "refuse")
 		}
 	}
-	return res, len(res) == len(s.c.Offers)
+	return res, len(res) == len(s.c.Offers) && s.polls > 0 // (no offers: the first poll shows that main() got as far as polling)
 }
 
 func TestVerifC06Main(t *testing.T) {
